@@ -471,7 +471,7 @@ def shards(tier, seed):
     out += [{"mode": "td-pairs", "index": i, "of": 8} for i in range(8)]
     out.append({"mode": "user-generics"})
     out += [{"mode": "history", "index": i, "of": 4} for i in range(4)]
-    out.append({"mode": "wide-right"})
+    out += [{"mode": "wide-right", "index": i, "of": 4} for i in range(4)]
     out += [{"mode": "program", "index": i, "modules": 5 if tier == "quick" else 150} for i in range(4 if tier == "quick" else 16)]
     return out
 
@@ -480,7 +480,9 @@ def run_shard(spec):
     col = runner.Collector(spec)
     seed = runner.mix_seed(spec["seed"], ID, spec["name"])
     if spec["mode"] == "wide-right":
-        for tsrc, members in wide_right_cases():
+        for k, (tsrc, members) in enumerate(wide_right_cases()):
+            if k % spec.get("of", 1) != spec.get("index", 0):
+                continue
             for key, what, case in check_wide_right(tsrc, members, col):
                 col.fail(key, what, case)
         return col.result()
